@@ -14,9 +14,11 @@ var vxFamily = [][]string{
 	{"a", "b"},                                    // 5: shorter than q at 0.8
 	{},                                            // 6: empty document
 	{"e", "f", "g", "h", "a", "b", "c", "d", "e", "f", "g", "h"}, // 7: 12 words
+	{"p", "q", "r"},      // 8: exactly the minimum run length for thresholds in [0.75,0.8)
+	{"p", "q", "r", "s"}, // 9: minimum run length for [0.8,0.8333)
 }
 
-func vxDocName(i int) string { return []string{"D0", "D1", "D2", "D3", "D4", "D5", "D6", "D7"}[i] }
+func vxDocName(i int) string { return []string{"D0", "D1", "D2", "D3", "D4", "D5", "D6", "D7", "D8", "D9"}[i] }
 
 func vxBuildWorld(t float64, docs ...int) *Classifier {
 	c := NewClassifier(t)
